@@ -27,12 +27,30 @@ def is_int_ty(ty):
     return ty in INT_TYPES or bool(BIG_RE.match(ty))
 
 
+AMBIGUOUS_NAMES = set()     # enum names defined more than once in the dumped crates (filled by Program.scan_sources)
+
+
 def norm_ty(t):
-    """Strip module paths: std::option::Option<bnum_integer::I192> -> Option<I192>."""
+    """Strip module paths: std::option::Option<bnum_integer::I192> -> Option<I192>. Names in AMBIGUOUS_NAMES keep
+    their parent module, mangled into one identifier: errors::one_resource_pool::Error -> one_resource_pool__Error."""
     t = t.strip()
+    if AMBIGUOUS_NAMES and "::" in t:
+        t = _AMBIG_RE[0].sub(r"\1__\2", t) if _AMBIG_RE[0] is not None else t
     t = re.sub(r"\b(?:[A-Za-z_]\w*::)+(?=[A-Za-z_{\[(&*]|<impl )", "", t)
     t = re.sub(r"\s+", " ", t)
     return t
+
+
+_AMBIG_RE = [None]
+
+
+def set_ambiguous_names(names):
+    AMBIGUOUS_NAMES.clear()
+    AMBIGUOUS_NAMES.update(names)
+    if AMBIGUOUS_NAMES:
+        _AMBIG_RE[0] = re.compile(r"\b(\w+)::(%s)\b(?!::<)" % "|".join(sorted(re.escape(n) for n in AMBIGUOUS_NAMES)))
+    else:
+        _AMBIG_RE[0] = None
 
 
 def zint(x):
